@@ -8,7 +8,7 @@ Resolution of cfg-gated alternatives: target_os = "linux".
 import os, re, sys, json
 
 REPO = os.environ.get("KV_REPO", "/repo")
-OUT = os.path.join(os.path.dirname(os.path.abspath(__file__)), "..", "coq", "theories", "Gen")
+OUT = os.environ.get("KV_GEN_OUT") or os.path.join(os.path.dirname(os.path.abspath(__file__)), "..", "coq", "theories", "Gen")
 
 
 class TranslatorError(Exception):
@@ -269,7 +269,48 @@ Definition match_key_names : list (string * string) := {lst_ss(names)}.
             "n_names": len(names) + len(defaults)}
 
 
-GENERATORS = [gen_keycodes]
+def gen_consts():
+    """capacities and thresholds of keyberon / kanata that the hand-written model repeats: regenerated here, compared with the
+    model's own definitions by Proofs/ConstsAgree.v (a proof obligation of every run)"""
+    lay = strip_comments(rd("keyberon/src/layout.rs"))
+    act = strip_comments(rd("keyberon/src/action.rs"))
+    mkb = strip_comments(rd("keyberon/src/multikey_buffer.rs"))
+    chd = strip_comments(rd("keyberon/src/chord.rs"))
+    kcd = strip_comments(rd("keyberon/src/key_code.rs"))
+    kan = strip_comments(rd("src/kanata/mod.rs"))
+    dyn = strip_comments(rd("src/kanata/dynamic_macro.rs"))
+
+    def num(src, pat, what):
+        return int(need(re.search(pat, src), what).group(1))
+    c = {}
+    c["QUEUE_SIZE"] = num(lay, r"const QUEUE_SIZE: usize = (\d+);", "layout.rs: QUEUE_SIZE")
+    need(re.search(r"type Queue = ArrayDeque<Queued, QUEUE_SIZE, arraydeque::behavior::Wrapping>;", lay), "layout.rs: Queue is a wrapping deque of QUEUE_SIZE")
+    need(re.search(r"pub type QueueLen = u8;", lay), "layout.rs: QueueLen = u8")
+    c["QUEUE_LEN_MAX"] = 255
+    c["ACTION_QUEUE_LEN"] = num(lay, r"pub const ACTION_QUEUE_LEN: usize = (\d+);", "layout.rs: ACTION_QUEUE_LEN")
+    c["HISTORICAL_EVENT_LEN"] = num(lay, r"const HISTORICAL_EVENT_LEN: usize = (\d+);", "layout.rs: HISTORICAL_EVENT_LEN")
+    c["EXTRA_WAITING_LEN"] = num(lay, r"const EXTRA_WAITING_LEN: usize = (\d+);", "layout.rs: EXTRA_WAITING_LEN")
+    c["STATES_CAP"] = num(lay, r"pub states: Vec<State<'a, T>, (\d+)>,", "layout.rs: capacity of Layout.states")
+    c["ACTIVE_SEQ_CAP"] = num(lay, r"pub active_sequences: ArrayDeque<SequenceState<'a, T>, (\d+), arraydeque::behavior::Wrapping>,",
+                              "layout.rs: capacity of Layout.active_sequences")
+    c["MAX_ACTIVE_LAYERS"] = num(lay, r"pub const MAX_ACTIVE_LAYERS: usize = (\d+);", "layout.rs: MAX_ACTIVE_LAYERS")
+    c["ONE_SHOT_MAX_ACTIVE"] = num(act, r"pub const ONE_SHOT_MAX_ACTIVE: usize = (\d+);", "action.rs: ONE_SHOT_MAX_ACTIVE")
+    c["RPT_BUFCAP"] = c["ONE_SHOT_MAX_ACTIVE"] + num(mkb, r"const BUFCAP: usize = ONE_SHOT_MAX_ACTIVE \+ (\d+);", "multikey_buffer.rs: BUFCAP")
+    c["SMOL_Q_LEN"] = num(chd, r"const SMOL_Q_LEN: usize = (\d+);", "chord.rs: SMOL_Q_LEN")
+    c["ACTIVE_CHORDS_CAP"] = num(chd, r"active_chords: HVec<ActiveChord<'a, T>, (\d+)>,", "chord.rs: capacity of active_chords")
+    c["CHORDS_V2_MIN_IGNORE"] = num(chd, r"assert!\(ticks_ignore_chord >= (\d+)\);", "chord.rs: minimum of ticks_ignore_chord")
+    c["KEY_MAX"] = num(kcd, r"pub const KEY_MAX: u16 = (\d+);", "key_code.rs: KEY_MAX")
+    c["RELOAD_IDLE_TICKS"] = num(kan, r"\|\| self\.ticks_since_idle > (\d+)\)", "kanata/mod.rs: live reload idle fallback")
+    c["REPLAY_PACING"] = num(dyn, r"state\.delay_remaining = (\d+);", "dynamic_macro.rs: replay pacing")
+    body = "\n".join("Definition src_%s : N := %d." % (k, v) for k, v in sorted(c.items()))
+    v = ("(* GENERATED by tools/gen_tables.py from keyberon/src/{layout,action,multikey_buffer,chord,key_code}.rs and\n"
+         "   src/kanata/{mod,dynamic_macro}.rs - do not edit.  Capacities and thresholds as the source states them now. *)\n"
+         "From Coq Require Import NArith.\nOpen Scope N_scope.\n" + body + "\n")
+    ch = write_if_changed("Consts.v", v)
+    return {"Consts.v": ch, "n_consts": len(c)}
+
+
+GENERATORS = [gen_keycodes, gen_consts]
 
 
 def main():
